@@ -44,6 +44,7 @@ type probe struct {
 	freshEach bool         // multi: every bind goes through c.Bind() again
 	viaMW     bool         // multi: a middleware switched automatic handling on
 	hdrs      *presetHdrs  // headers set on the client / the request besides the value (nil = none)
+	where     int          // where the application hands the value over: on the request, in a request hook, at client level
 	pre       string       // what the handler does before the judged bind: "" | body-first | multipartform-first
 
 	// results
@@ -262,62 +263,39 @@ func (r *rig) roundTrip(p *probe) *outcome {
 	defer r.removeUploads()
 	o := &outcome{p: p}
 	req := r.cl.R()
-	val := p.want.Interface()
+	// a second client (same transport) whenever something lives at client level: default headers,
+	// the value itself, a request hook
+	var cl2 *client.Client
+	own := func() *client.Client {
+		if cl2 == nil {
+			cl2 = client.NewWithClient(r.fc)
+			req.SetClient(cl2)
+		}
+		return cl2
+	}
+	if h := p.hdrs; h != nil && h.level == "client" {
+		h.apply(func(k, v string) { own().SetHeader(k, v) })
+	}
+	switch p.where {
+	case whereHook:
+		// the application fills the request in a request hook ("modify the request before it is sent")
+		own().AddRequestHook(func(_ *client.Client, hr *client.Request) error {
+			r.prepare(hr, p, own)
+			return nil
+		})
+	case whereClient:
+		r.prepareClient(own(), p)
+		r.presetRequest(req, p, "before")
+		r.presetRequest(req, p, "after")
+	default:
+		r.prepare(req, p, own)
+	}
 	var resp *client.Response
 	var err error
-	r.presetBefore(req, p)
-	if p.send != nil && p.send.mode != sendStruct && p.src.isText() {
-		resp, err = r.sendPieces(req, p)
-		if err != nil {
-			o.sendErr = err.Error()
-			client.ReleaseRequest(req)
-			return o
-		}
-		o.status = resp.StatusCode()
-		resp.Close()
-		return o
-	}
-	switch p.src {
-	case sQuery:
-		req.SetParamsWithStruct(val)
-		resp, err = r.fire(req, p, "Get")
-	case sForm:
-		req.SetFormDataWithStruct(val)
-		resp, err = r.fire(req, p, "Post")
-	case sMultipart:
-		if p.send != nil && p.send.fileFirst {
-			r.attachFiles(req, p.send)
-			req.SetFormDataWithStruct(val)
-		} else {
-			req.SetFormDataWithStruct(val)
-			r.attachFiles(req, p.send)
-		}
-		resp, err = r.fire(req, p, "Post")
-	case sHeader:
-		for i := range p.typ.Fields {
-			f := &p.typ.Fields[i]
-			fv := p.want.FieldByName(f.Name)
-			if f.Slice {
-				for j := 0; j < fv.Len(); j++ {
-					req.AddHeader(f.wire("header"), formatScalar(f.K, fv.Index(j)))
-				}
-			} else {
-				req.AddHeader(f.wire("header"), formatScalar(f.K, fv))
-			}
-		}
-		resp, err = r.fire(req, p, "Get")
-	case sCookie:
-		req.SetCookiesWithStruct(val)
-		resp, err = r.fire(req, p, "Get")
-	case sJSON:
-		req.SetJSON(val)
-		resp, err = r.fire(req, p, "Post")
-	case sXML:
-		req.SetXML(val)
-		resp, err = r.fire(req, p, "Post")
-	case sCBOR:
-		req.SetCBOR(val)
-		resp, err = r.fire(req, p, "Post")
+	if p.src == sQuery || p.src == sHeader || p.src == sCookie {
+		resp, err = req.Get(rigURL)
+	} else {
+		resp, err = req.Post(rigURL)
 	}
 	if err != nil {
 		o.sendErr = err.Error()
@@ -327,6 +305,69 @@ func (r *rig) roundTrip(p *probe) *outcome {
 	o.status = resp.StatusCode()
 	resp.Close()
 	return o
+}
+
+// prepare hands the value (and the request-level headers around it) to the request.
+func (r *rig) prepare(req *client.Request, p *probe, own func() *client.Client) {
+	r.presetRequest(req, p, "before")
+	defer r.presetRequest(req, p, "after")
+	if p.send != nil && p.send.mode != sendStruct && p.src.isText() {
+		r.sendPieces(req, p, own)
+		return
+	}
+	val := p.want.Interface()
+	switch p.src {
+	case sQuery:
+		req.SetParamsWithStruct(val)
+	case sForm:
+		req.SetFormDataWithStruct(val)
+	case sMultipart:
+		if p.send != nil && p.send.fileFirst {
+			r.attachFiles(req, p.send)
+			req.SetFormDataWithStruct(val)
+		} else {
+			req.SetFormDataWithStruct(val)
+			r.attachFiles(req, p.send)
+		}
+	case sHeader:
+		eachHeader(p, func(k, v string) { req.AddHeader(k, v) })
+	case sCookie:
+		req.SetCookiesWithStruct(val)
+	case sJSON:
+		req.SetJSON(val)
+	case sXML:
+		req.SetXML(val)
+	case sCBOR:
+		req.SetCBOR(val)
+	}
+}
+
+// prepareClient hands the value to the client (defaults of every request); only the sources the
+// client has a place for: query, cookie, header.
+func (r *rig) prepareClient(cl *client.Client, p *probe) {
+	val := p.want.Interface()
+	switch p.src {
+	case sQuery:
+		cl.SetParamsWithStruct(val)
+	case sCookie:
+		cl.SetCookiesWithStruct(val)
+	case sHeader:
+		eachHeader(p, func(k, v string) { cl.AddHeader(k, v) })
+	}
+}
+
+func eachHeader(p *probe, add func(k, v string)) {
+	for i := range p.typ.Fields {
+		f := &p.typ.Fields[i]
+		fv := p.want.FieldByName(f.Name)
+		if f.Slice {
+			for j := 0; j < fv.Len(); j++ {
+				add(f.wire("header"), formatScalar(f.K, fv.Index(j)))
+			}
+		} else {
+			add(f.wire("header"), formatScalar(f.K, fv))
+		}
+	}
 }
 
 func opFor(src source) string {
